@@ -504,6 +504,42 @@ def pubkey_encoding_scenarios(prog, chk, pid, tier):
                 "for every point the public-key encodings are X || Y, 04 || X || Y and the RFC 5480 SubjectPublicKeyInfo for prime256v1 with the point as BIT STRING; the 27-byte header bec2format strips is exactly that prefix", why)
 
 
+def private_scalar_rules(prog, chk, pid):
+    """a private key is a scalar d with 1 <= d < n: from_secret_exponent (where from_string / from_der / from_pem end up) refuses
+    everything else with MalformedPointError BEFORE the public point generator * d is formed (d = n would give the point at infinity
+    and an undocumented failure further down)"""
+    P = lambda s_: "%s.%s" % (pid, s_)
+    fi = prog.func(E + "keys.SigningKey.from_secret_exponent")
+    where = "%s:%d" % (fi.file, fi.lineno)
+    ex = Exec(prog, policy=lambda e, f, d: False)
+    res = ex.run(fi)
+    sec = mk("param", fi.params[1])
+    gs = [g for g in res.events if g.kind == "guard" and g.d.get("term") == "raise" and "MalformedPointError" in str(g.d.get("exc"))]
+    mults = [e for e in res.events if e.kind == "op" and e.d["op"] == "Mult" and any(unsnap(a) is sec for a in e.d["args"]) and any("generator" in show(a, 3) for a in e.d["args"])]
+    ok, why = False, "no guard raising MalformedPointError on the scalar"
+    for g in gs:
+        ds = disjuncts(raise_rel(g))
+        low = any(d[0] == "rel" and ((d[1] == "Lt" and unsnap(d[2]) is sec and is_const(d[3]) and cval(d[3]) == 1) or (d[1] == "LtE" and unsnap(d[2]) is sec and is_const(d[3]) and cval(d[3]) == 0)) for d in ds)
+        high = any(d[0] == "rel" and d[1] == "LtE" and unsnap(d[3]) is sec and "order" in show(d[2], 3) for d in ds)
+        if low and high and len(ds) == 2:
+            ok = bool(mults) and all(dominates(g, m_) for m_ in mults)
+            why = "the range guard does not dominate the computation of generator * secexp"
+            break
+        why = "the scalar range refused is (%s), expected secexp < 1 or secexp >= order" % "; ".join(show_rel(d, 4) for d in ds)
+    chk.require(ok, P("private-scalar-range"), fi.qualname, "not 1 <= secexp < n -> MalformedPointError, before generator * secexp", where,
+                "private scalars outside [1, n-1] (in particular 0 and the group order itself) are refused with the documented error", why)
+    # the decoders end in from_secret_exponent (no second construction path)
+    for q in ("SigningKey.from_string",):
+        f2 = prog.func(E + "keys." + q)
+        e2 = Exec(prog, policy=lambda e, f, d: False)
+        r2 = e2.run(f2)
+        calls = [e for e in r2.events if e.kind == "call" and e.d["callee"].name == "from_secret_exponent"]
+        rets = [e for e in r2.events if e.kind == "return" and e.stack == (f2.qualname,)]
+        ok2 = len(calls) >= 1 and all(any(unsnap(r.d["value"]) is unsnap(c.d["result"]) for c in calls) or "eddsa" in show(r.d["value"], 4).lower() or any(f[0] == "if" and "CurveEdTw" in show(f[1], 4) and f[2] for f in r.ctx) for r in rets)
+        chk.require(ok2, P("private-scalar-range"), f2.qualname, "return cls.from_secret_exponent(string_to_number(string), curve, hashfunc)", "%s:%d" % (f2.file, f2.lineno),
+                    "raw private keys become key objects only through the range-checked constructor", "from_string builds a Weierstrass key without from_secret_exponent")
+
+
 def run(prog, chk, tier):
     chk.explanation = ("The decoders of the vendored ECC library are interpreted with the DER primitives, byte helpers and point decoders inlined; explicit raises, assertions and "
                        "implicit raisers are collected with their handlers; implicit ones and assertions are discharged by Fourier-Motzkin entailment over path facts (length "
@@ -516,5 +552,6 @@ def run(prog, chk, tier):
     trailing_data_rules(prog, chk, "C19")
     const_rules(prog, chk, "C19")
     point_encoding_rules(prog, chk, "C19")
+    private_scalar_rules(prog, chk, "C19")
     stackrt.guarded(chk, "C19.der-codec-scenarios", der_codec_scenarios, prog, chk, "C19", tier)
     stackrt.guarded(chk, "C19.pubkey-encoding-scenarios", pubkey_encoding_scenarios, prog, chk, "C19", tier)
